@@ -1,4 +1,50 @@
-import CM.Proofs.Sim
+/-
+  C03 — One call evaluates each needed function exactly once and nothing else.
+
+  Proved here, for every well-formed cache-free graph, every input and every fault schedule:
+
+    * `at_most_once`: started with an empty log, a call of the compiled function (returning or raising) logs at most
+      one user-function call per node.  This is the eviction-counter invariant with ghost completion flags
+      (`CM.Proofs.Once.big_inv`): a generator of a node runs to completion at most once, because its memo entry
+      stays in the scratch table while any child may still ask for it (`counts = 2 × paths` never runs out), and a
+      node issues its call either from its hash generator (hash-by-value / impure wrappers) or from its value
+      generator (plain functions), never from both.
+    * `shared_intermediate`: the value of a product node is the tuple of the denotations of its parents: all
+      requested fields see the same value of every shared node, impure ones included (their value carries the
+      number of the call and the node, so a separate call produces a different value).
+
+  Not proved (`exactly_needed` is stated but left to the correspondence S-VM/S-REL and the call-log oracle): that
+  *only* functions the cache-free evaluation needs are executed.
+-/
+import CM.Props.C01
 namespace CM.C03
-theorem placeholder : True := trivial
+open CM
+
+/-- **At most once.** -/
+theorem at_most_once (g : Graph) (ok : GraphOK g) (env : String → Option Val) (w : World) (hc : CallOK g env) (hlog : w.log = []) :
+    ∃ N o steps, (∀ fuel, N ≤ fuel → g.call env w fuel = some (o, steps)) ∧ ∀ j, calls o.mem j ≤ 1 :=
+  call_once g ok env w hc hlog
+
+theorem asVals_map_val : ∀ vs : List Val, asVals (vs.map Item.val) = some vs
+  | [] => rfl
+  | v :: vs => by simp [asVals, asVals_map_val vs]
+
+/-- **Shared intermediates.**  A product (tuple of requested fields) denotes the tuple of its parents' values. -/
+theorem shared_intermediate (g : Graph) (d : DenCfg) (ok : GraphOK g) (n : Nat) (he : (g.node n).edge = some .product)
+    (vs : List Val) (h : interpReqs (ctxOf g d n) ((List.range (g.parents n).length).map .parentValue) = .ok (vs.map .val)) :
+    (den g d n).v = .ok (.tup vs) := by
+  rw [(den_inner g d ok n .product he).2]
+  simp only [EdgeK.evalProg, staticEval, interp, interpReq, h, Except.map]
+  simp only [asVals_map_val, interp]
+  rfl
+
+/-- an impure function's value names the call and the node: two calls never share it -/
+theorem impure_differs_between_calls (f : String) (n c c' : Nat) (pos : List Val) (kwn : List String) (kwv : List Val)
+    (h : c ≠ c') : Val.imp f c n pos kwn kwv ≠ Val.imp f c' n pos kwn kwv := by
+  intro he; injection he with _ h2; exact h h2
+
+/-! non-vacuity: the demo graph of C01 uses node 1 (`g(x)`) three times; the theorem applies to it -/
+example : ∃ N o steps, (∀ fuel, N ≤ fuel → C01.demo.call C01.demoEnv {} fuel = some (o, steps)) ∧ ∀ j, calls o.mem j ≤ 1 :=
+  at_most_once C01.demo (okB_sound _ (by decide +kernel)) C01.demoEnv {} (callOKB_sound _ _ (by decide +kernel)) rfl
+
 end CM.C03
